@@ -646,3 +646,60 @@ impl PipeFinite for Value {
         }
     }
 }
+
+fn cut(s: &str, max_bytes: usize) -> String {
+    if s.len() <= max_bytes {
+        return s.to_string();
+    }
+    let mut end = max_bytes;
+    while !s.is_char_boundary(end) {
+        end -= 1;
+    }
+    s[..end].to_string()
+}
+
+/// Map an arbitrary `Value` (e.g. one decoded from fuzzer bytes) into the well-formed term space the generators
+/// above produce: normalised integers, finite floats, masked bit strings, flattened lists, maps without `==`-equal
+/// keys, identifiers with 1..255-byte node names and at most five reference words, funs whose creator is a pid.
+pub fn sanitize(v: &Value, depth: usize) -> Value {
+    if depth > 40 {
+        return Value::nil();
+    }
+    let s = |x: &Value| sanitize(x, depth + 1);
+    let node = |n: &str| if n.is_empty() { "n@h".to_string() } else { cut(n, 255) };
+    match v {
+        Value::Int(b) => Value::Int(BigI::from_parts(b.neg, &b.mag)),
+        Value::Float(bits) => {
+            let f = f64::from_bits(*bits);
+            Value::Float(if f.is_finite() { *bits } else { *bits & !(1u64 << 62) })
+        }
+        Value::Atom(a) => Value::Atom(cut(a, 65535)),
+        Value::Bits { bytes, last_bits } => Value::bits(bytes, (*last_bits).clamp(1, 8)),
+        Value::Tuple(e) => Value::Tuple(e.iter().map(s).collect()),
+        Value::List { elems, tail } => {
+            let e: Vec<Value> = elems.iter().map(s).collect();
+            match tail {
+                None => Value::list(e),
+                Some(t) => Value::cons_list(e, s(t)),
+            }
+        }
+        Value::Map(m) => Value::Map(dedupe_map(m.iter().map(|(k, x)| (s(k), s(x))).collect(), false)),
+        Value::Pid { node: n, id, serial, creation } => Value::Pid { node: node(n), id: *id, serial: *serial, creation: *creation },
+        Value::Port { node: n, id, creation } => Value::Port { node: node(n), id: *id, creation: *creation },
+        Value::Ref { node: n, creation, ids } => Value::Ref { node: node(n), creation: *creation, ids: ids.iter().copied().take(5).collect() },
+        Value::ExportFun { module, function, arity } => Value::ExportFun { module: cut(module, 255), function: cut(function, 255), arity: *arity },
+        Value::Fun { arity, uniq, index, module, old_index, old_uniq, pid, free } => Value::Fun {
+            arity: *arity,
+            uniq: *uniq,
+            index: *index,
+            module: cut(module, 255),
+            old_index: *old_index,
+            old_uniq: *old_uniq,
+            pid: Box::new(match s(pid) {
+                p @ Value::Pid { .. } => p,
+                _ => Value::Pid { node: "n@h".into(), id: 1, serial: 2, creation: 3 },
+            }),
+            free: free.iter().take(8).map(s).collect(),
+        },
+    }
+}
